@@ -24,6 +24,7 @@ META["explanation"] += " R19.3 also requires all construction sites of one subsc
 META["explanation"] += ' R19.4 also sees SharedReadLock::downgrade; R19.7 also sees replacement through Clone::clone_from / mem::replace / swap / take.'
 META["explanation"] += ' R19.8 ManuallyDrop ledger: every owned share of the owner counter made in a function (clone of the field, ManuallyDrop::new of a fresh / upgraded Arc) is moved into the counter field of a constructed SharedObservable or released explicitly; a value that only gets borrowed leaks one count per call. R19.9 type ledger: no type other than the counted handles has a field that owns a state reference (Arc / SharedReadLock / Owned*Guard), and the guard types chosen by the Lock impls borrow.'
 META["explanation"] += " R19.10 (async flavour) the completed lock future is re-armed before anything that can run foreign code (the value's Clone, the waker's clone, a closure): a panic in between leaves the subscriber with one reference for the rest of its life. R19.11 no hidden handles: a clone of a SharedObservable / Subscriber made inside the crate is not moved into a closure / future the function returns."
+META["explanation"] += ' R19.12 no handle (Subscriber / SharedObservable) is created before an await inside the async API (it would live in the pending future and be counted).'
 
 SH = "shared::SharedObservable<"
 
@@ -46,6 +47,7 @@ def run(ctx):
     r19_8(ctx, counter)
     r19_9(ctx)
     r19_11(ctx)
+    r19_12(ctx)
     if ctx.has_async:
         from . import wakers
         k = 0
@@ -482,3 +484,35 @@ def r19_11(ctx):
                 ctx.undecided("R19.11", root, "no-hidden-handle", where, "the clone flows into %s" % (sinks,))
     if n == 0:
         ctx.holds("R19.11", None, "no-hidden-handle", None, "no function of the crate clones a SharedObservable / Subscriber handle for itself")
+
+
+
+def r19_12(ctx):
+    """no handle is created before an await inside the async API: a Subscriber / SharedObservable that an `async fn` makes and then
+    keeps across a suspension point lives in the pending future - it is counted (strong_count, subscriber_count, observable_count)
+    although the caller has not received any handle yet. Handles are created after the last await (on the value read under the lock)."""
+    F = ctx.facts
+    n = 0
+    k = 0
+    for f in F.find(crate=EY):
+        if f.kind != "coroutine" or not f.built:
+            continue
+        b = f.built
+        yields = [blk for blk in b.reachable() if b.term(blk)["k"] == "yield"]
+        if not yields:
+            continue
+        k += 1
+        for blk, t in b.calls():
+            if t["dest"]["proj"]:
+                continue
+            ty = str(b.locals[t["dest"]["l"]]["ty"])
+            if not re.match(r"(shared::SharedObservable|subscriber::Subscriber|unique::Observable)<", ty):
+                continue
+            n += 1   # any call that returns a handle (constructor, helper, clone) - by result type, not by name
+            later = [y for y in yields if y in b.reachable_from(t["target"])] if t.get("target") is not None else []
+            root = root_fn(F, f)
+            ctx.verdict(not later, "R19.12", root, "handle-created-after-the-last-await", b.line_at((blk, 10 ** 6)), "the handle is created after the last suspension point",
+                        "`%s` creates a `%s` and then awaits (bb%s): while that future is pending - e.g. waiting for a write guard to be released - it owns the handle, so the counts include a handle nobody has received yet (strong_count / subscriber_count too high at a quiescent moment)" % (
+                            root.path, ty.split("<")[0].split("::")[-1], later[0] if later else "-"))
+    if not n:
+        ctx.holds("R19.12", None, "handle-created-after-the-last-await", None, "no async body of the crate creates a handle")
